@@ -5,4 +5,5 @@ func c07(stats map[string]int) {
 	c07wire(stats)
 	c07wireShapes(stats)
 	c07wireReturnEntity(stats)
+	c07wirePrefixNames(stats)
 }
